@@ -152,12 +152,21 @@ def _top_level_blocks(src, lo, hi):
     depth 0 within src[lo:hi]; header_start is the end of the previous block or
     `;` at depth 0."""
     depth = 0
+    pdepth = 0
     header_start = lo
     block_open = None
     for kind, s, e in tokenize(src[lo:hi]):
         if kind != 'punct':
             continue
         ch = src[lo + s]
+        if ch in '([':
+            pdepth += 1
+            continue
+        if ch in ')]':
+            pdepth -= 1
+            continue
+        if ch == ';' and pdepth > 0:
+            continue
         if ch == '{':
             if depth == 0:
                 block_open = lo + s
